@@ -18,6 +18,16 @@ CLAIMED = {
             "Sampling. The community-pool creation path (needs a passed gov proposal) is not exercised."),
     "C06": ("5/C06", "Same simulation judged against an exact rational (big.Rat) stake-time reference: funded = remaining + released after every block, released only while someone is staked, refund to the creator exactly once (end block or destroy), end height = start + min floor(budget/rate), after an adjust the budget lasts to the new end, per-farmer cumulative payout within the property's stated rounding of the exact share, sum paid <= released.",
             "Sampling. Tolerance taken from the property's wording (one unit per interaction plus 18-decimal accumulator truncation)."),
+    "C07": ("5/C07", "Simulated service histories (define / bind / update / enable / disable / refund-deposit / call one-shot and repeated contexts / respond / withdraw / expire over several providers, owners and consumers; pricing with time and volume promotions, in the base and a second denom; tax and slash fractions sampled; consumers drained) with faults. After every transaction and end block: deposit escrow = sum of bindings' deposits; request escrow = fees of active requests + earned fees (provider and owner tallies agreeing); end-block charge to each consumer = sum of the fees recorded on the requests created for them; answered => tax to the fee collector, rest to the provider tally; expired => full refund and exactly the slashed fraction moved; withdraw pays exactly the tally.",
+            "Sampling. Requests are learned from end-block events and queries; the module callback tap is a verif-tagged hook."),
+    "C08": ("5/C08", "Same simulation judged against a request / context automaton: respond accepted iff addressed provider and active; each request ends in exactly one outcome at or before its expiration height; one-shot contexts issue one batch and are removed; repeated unmodified running contexts issue batch n+1 exactly their frequency after batch n, none while paused, none beyond total; only the consumer's pause/start/kill/update accepted; module callbacks (recorded by the tap, through oracle feeds and random requests) fire once per batch.",
+            "Sampling."),
+    "C13": ("5/C13", "All ten workload modules on one chain with due-height targeting (operations retimed onto expiry / end / batch / fulfilment heights and their neighbours, several objects per due height), restarts, crashes, clock jumps. Any panic escaping FinalizeBlock with an irismod frame is a violation (stack in the replay); after every block each module's queue (HTLC expiry, farm active pools, service new-batch / expired-batch with height markers, random requests) is compared by raw iteration with the objects the module's queries report; exactly-once at the due height comes from the modules' lifecycle ledgers.",
+            "Sampling."),
+    "C17": ("5/C17", "Simulated feed histories on top of the service workload (create / start / pause / edit feeds with 1..N providers, thresholds, growing and shrinking history, creators running dry, strangers trying; responses with values of either sign, zero, huge, many decimals, non-numeric, missing). For each batch the aggregate of the accepted valid responses is recomputed in exact rationals and compared with the stored value (8 decimals; tolerance 1e-8 + 1e-12|v| for the module's float arithmetic), exactly one value per threshold-meeting batch stamped with the block time, newest first, bounded by latest-history; feed state index = request-context state after every block; creator-only control.",
+            "Sampling. Known finding: values outside the float64 range are stored as +-Inf."),
+    "C18": ("5/C18", "Simulated random-request histories (several requesters, intervals 0..k, many due at one height, oracle-seeded requests whose provider answers validly, with garbage, or never). Plain requests: absent through block h+n, present from h+n+1 on, queue entry gone, value re-read unchanged until the end and equal to an independent recomputation from the previous block's app hash, the block time and the requester (20 fractional digits, in [0,1)); oracle-seeded: fulfilled exactly in the block carrying the valid seed, pending entry removed on failure or timeout.",
+            "Sampling. At most one request per requester per block (the id scheme's stated domain)."),
     "C09": ("5/C09", "Simulated token histories (issue / edit / mint / burn / transfer-owner by owners, previous owners and strangers; scales 0..18; supplies at their limits; fractional burns; max-supply edits at the circulating amount; fee and tax parameters sampled and updated by the governor) with faults. Model decides authority verdicts; symbol and min-unit stay injective; supply <= queried cap after every transaction; burn tally exact; issue/mint fee balance sheet (owner pays, tax share to fee collector, rest burned, module account untouched).",
             "Sampling. Conversions (C10 operations) are outside C09's quantifier: the cap clause is not judged for a token once a conversion moved its native supply."),
     "C10": ("5/C10", "Same simulation with a fault-injectable ERC20 ledger behind the module's EVMKeeper interface whose state lives in the transaction's own cache-wrapped store (rolls back with the transaction): errors, reverts, wrong balance deltas, misdirected mints, gas-estimate failures. Accepted conversions move exactly the amount between native and ERC20 supply; any rejected conversion leaves bank and ERC20 ledgers untouched; fee-token swaps (registry filled through the verif-tagged accessor; ratios and scales swarm-sampled) never burn more than offered nor mint more than the burned amount is worth, exact at ratio 1.",
